@@ -34,7 +34,7 @@ def _lookup(fsid):
     return _REG[fsid]
 
 
-FAULT_KINDS = ('eio', 'enospc_partial', 'eio_close', 'crash')
+FAULT_KINDS = ('eio', 'enospc_partial', 'eio_close', 'crash', 'interrupt')
 
 _PKG_FILES = ('api.py', 'writer.py', 'core.py', 'util.py', 'schema.py',
               'dataframe.py', 'json.py', 'compression.py', 'encoding.py',
@@ -300,6 +300,10 @@ class SimFS(AbstractFileSystem):
         self.fired.append((k, kind, ev[1], ev[2], ev[4]))
         if self.double:
             self._double_armed = True
+        if kind == 'interrupt':
+            # a cancellation delivered inside the call (KeyboardInterrupt):
+            # the process lives on, nothing of this call took effect
+            raise KeyboardInterrupt('injected interrupt at call %d' % k)
         if kind == 'crash':
             self.crashed = True
             raise SimCrash('injected crash at call %d (%s %s)'
